@@ -1863,6 +1863,7 @@ func child() {
 		nbMultiQuestion(kind)
 	}
 	nbStreamSizes()
+	nbSplitFrames()
 	nbRedirects()
 	runs := pick(2, 12)
 	for _, kind := range []string{"Server", "UDPServer"} {
